@@ -56,6 +56,8 @@ class Container:
         self.vip = None
         self.delta = frozenset()
         self.state = None             # state.json as read back by the harness
+        self.interrupted_finishes = 0
+        self.vip_released_by_interrupted_finish = False
 
     def close_sockets(self):
         for s in self.sockets:
@@ -198,6 +200,18 @@ class Host:
             host_._inotifies.append(self_)
         rebind(inotify.Inotify, '__init__', inotify_init)
 
+        # a cut point between the removal of the network request link (which lets the network
+        # service free the VIP) and the renaming of the request directory
+        from treadmill.services import _base_service
+        orig_del = _base_service.ResourceService.clt_del_request
+
+        def clt_del_request(self_, *a, **kw):
+            res = orig_del(self_, *a, **kw)
+            if getattr(self_, 'name', None) == 'network':
+                host_._step('clt_del_request:done')
+            return res
+        rebind(_base_service.ResourceService, 'clt_del_request', clt_del_request)
+
         for attr in ('create_rule', 'unlink_rule'):
             observed(rulefile.RuleMgr, attr)
         for attr in ('create_spec', 'unlink_spec', 'unlink_all'):
@@ -238,7 +252,7 @@ class Host:
         cut = self.cut
         if cut is None or self.cut_fired:
             return None
-        if cut[0] == 'kill' and self.steps == cut[1]:
+        if (cut[0] == 'kill' and self.steps == cut[1]) or (cut[0] == 'kill_at' and label == cut[1]):
             self.cut_fired = True
             self.kernel.dead = True
             raise Kill(label)
